@@ -1,6 +1,8 @@
 (** C05 — a recording is persisted whole or not at all, and finalised exactly once.  Statements only. *)
 From Playback Require Import Base.Str Values.PyVal Values.KeyFormat Recorder.Dsl Recorder.Exec Recorder.Run Recorder.RecFacts.
-From Coq Require Import QArith.
+From Playback Require Import Recorder.Threads Recorder.ThreadsFacts.
+From Coq Require Import QArith List.
+Import ListNotations.
 
 (** The recorder-state invariant behind everything here, for every program, state and termination mode
     (return, ordinary exception, interrupt-style termination, at any step, also inside intercepted bodies):
@@ -36,6 +38,32 @@ Theorem C05_saved_only_if_captured :
                 lop = match o with OVal v => [EWrite OPKEY (DOut [v] [])] | OExn (EUser ty) => [EWrite OPKEY (DOpExn ty)] | _ => [] end.
 Proof. exact record_run_saved_only_if_captured. Qed.
 Print Assumptions C05_saved_only_if_captured.
+
+(** Racing threads (model Recorder/Threads.v): for any number of threads and every schedule the recording is
+    handed to the cassette (saved or aborted) at most once at every moment, and once it is no longer active and
+    every thread is between calls it has been handed over exactly once - never twice, never lost. *)
+Theorem C05_finalised_exactly_once_under_any_interleaving :
+  forall n sched,
+  let '(sh, ls) := run Fixed sched (sh0, repeat idle_thread n) in
+  (fin sh <= 1)%nat /\ (ar sh = false -> quiescent ls -> fin sh = 1%nat).
+Proof.
+  intros n sched. pose proof (fixed_safe n sched) as S. pose proof (fixed_exactly_once n sched) as E.
+  destruct (run Fixed sched (sh0, repeat idle_thread n)) as [sh ls]. split; [apply S|exact E].
+Qed.
+Print Assumptions C05_finalised_exactly_once_under_any_interleaving.
+
+(** The code before /repo 359c201: two racing discards abort the same recording twice. *)
+Theorem C05_legacy_refuted :
+  exists sched, let '(sh, _) := run Legacy sched (sh0, [start MDiscard; start MDiscard]) in fin sh = 2%nat.
+Proof. exact legacy_double_finalisation. Qed.
+Print Assumptions C05_legacy_refuted.
+
+(** non-vacuity of the racing statement: a discard on thread 1 overtakes the end of the scope on thread 0 *)
+Example C05_race_example :
+  let '(sh, ls) := run Fixed [ABegin 0 MFinalise; ABegin 1 MDiscard; AStep 1; AStep 0; AStep 1; AStep 0]
+                       (sh0, repeat idle_thread 2) in
+  ar sh = false /\ fin sh = 1%nat /\ forallb (fun l => match st l with Done => true | _ => false end) ls = true.
+Proof. vm_compute. repeat split; reflexivity. Qed.
 
 (** non-vacuity: an interrupt inside an intercepted body after an output was captured: one create, one save *)
 Example C05_example :
